@@ -71,6 +71,11 @@ MergeAll(outs, S) == IF S = {} THEN [ok |-> TRUE, v |-> Empty]
                           IN IF ~r.ok \/ (DOMAIN r.v) \cap (DOMAIN outs[s]) # {} THEN [ok |-> FALSE, v |-> Empty]
                              ELSE [ok |-> TRUE, v |-> r.v @@ outs[s]]
 OutOf(n, v) == (n :> [n |-> n, i |-> v])
+\* state handlers that modify what they pass on (scenario flag hmod): the pre-handler adds the key "pre" to the node's input,
+\* the post-handler adds the key "q<node>" to its output -- "the values they return are what the node and its successors receive"
+HMod(gg) == gg.state /\ gg.hmod
+PreIn(gg, v) == IF HMod(gg) THEN ("pre" :> [n |-> "pre", i |-> <<>>]) @@ v ELSE v
+PostOut(gg, n, out) == IF HMod(gg) /\ gg.post THEN (("q" \o n) :> [n |-> "post", i |-> <<>>]) @@ out ELSE out
 InitialInput == ("in" :> [n |-> "x", i |-> Empty])
 
 --------------------------------------------------------------------------------
@@ -88,7 +93,7 @@ NewFrame(gg, input) ==
   [g |-> gg, st |-> "route", outs |-> (START :> input), chosen |-> Empty, pending |-> Empty, running |-> {}, ins |-> Empty,
    status |-> [n \in GNodes(gg) |-> "unk"], step |-> 0, fresh |-> FALSE,
    cleared |-> {}, afterDue |-> {}, afterBlock |-> {}, aborted |-> {}, redo |-> {}, preDone |-> {}, expect |-> Empty,
-   trail |-> <<>>, canceled |-> FALSE]
+   trail |-> <<>>, canceled |-> FALSE, cs |-> 0, postDue |-> {}, postBlock |-> {}]
 
 \* ---------- any-predecessor ----------
 PRouted(f, d) == {s \in DOMAIN f.outs : <<s, d>> \in DataEdges(f.g) \/ \E b \in DOMAIN f.chosen : BFrom(f.g, b) = s /\ d \in f.chosen[b]}
@@ -101,7 +106,7 @@ PAdvance(f) ==
      ELSE IF T = {} THEN [f EXCEPT !.st = "expect_stuck"]
      ELSE IF \E d \in T : ~ms[d].ok THEN [f EXCEPT !.st = "expect_dup"]
      ELSE [f EXCEPT !.st = "exec", !.pending = [d \in T |-> ms[d].v], !.outs = Empty, !.chosen = Empty,
-                    !.step = f.step + 1, !.fresh = TRUE, !.afterBlock = f.afterDue]
+                    !.step = f.step + 1, !.fresh = TRUE, !.afterBlock = f.afterDue, !.postBlock = f.postDue]
 
 \* ---------- all-predecessor (incremental trigger rule; covers batch and eager execution) ----------
 Decided(f, p) == \A b \in BranchesOf(f.g, p) : b \in DOMAIN f.chosen
@@ -125,7 +130,10 @@ ReadyD(f) ==
      /\ \A p \in CtrlPreds(f.g, n) : ResolvedC(f, sk, p)
      /\ \E p \in CtrlPreds(f.g, n) : DoneP(f, p) /\ RoutesCtrl(f, p, n)
      /\ \A p \in DataPreds(f.g, n) : ResolvedD(f, sk, p)}
-InputD(f, n) == MergeAll(f.outs, {p \in DataPreds(f.g, n) : DoneP(f, p) /\ RoutesData(f, p, n)})
+\* what travels over a data edge: the whole output in graphs; in workflows the harness maps field <source> to field <source>
+KeyOf(p) == IF p = START THEN "in" ELSE p
+EdgeOuts(f) == IF f.g.mode = "wf" THEN [p \in DOMAIN f.outs |-> [k \in (DOMAIN f.outs[p]) \cap {KeyOf(p)} |-> f.outs[p][k]]] ELSE f.outs
+InputD(f, n) == MergeAll(EdgeOuts(f), {p \in DataPreds(f.g, n) : DoneP(f, p) /\ RoutesData(f, p, n)})
 \* the all-predecessor frame never enters a terminal expectation: while END is already assembled other due nodes (same batch, or
 \* still running in eager mode) may legitimately execute; what the run may return is decided when it returns
 DView(f) ==
@@ -171,17 +179,19 @@ IsSubPrefix(gg, p) == \E n \in SubNames(gg) : n \o "/" = p
 SubNode(gg, p) == CHOOSE n \in SubNames(gg) : n \o "/" = p
 PathOf(gg, p) == IF p = "" THEN <<>> ELSE <<SubNode(gg, p)>>
 
-FinishNode(f, n, out) ==
+FinishNode(f, n, out0) ==
   LET due == IF n \in IAfter(f.g) THEN f.afterDue \cup {n} ELSE f.afterDue
       ins2 == [x \in (DOMAIN f.ins) \ {n} |-> f.ins[x]]
+      out == PostOut(f.g, n, out0)
+      pd == IF f.g.state /\ f.g.post THEN f.postDue \cup {n} ELSE f.postDue
   IN IF IsDag(f.g) THEN [f EXCEPT !.status[n] = "done", !.running = f.running \ {n}, !.outs = (n :> out) @@ f.outs,
-                                  !.afterDue = due, !.ins = ins2]
-     ELSE [f EXCEPT !.running = f.running \ {n}, !.outs = (n :> out) @@ f.outs, !.afterDue = due, !.ins = ins2,
+                                  !.afterDue = due, !.ins = ins2, !.postDue = pd]
+     ELSE [f EXCEPT !.running = f.running \ {n}, !.outs = (n :> out) @@ f.outs, !.afterDue = due, !.ins = ins2, !.postDue = pd,
                     !.st = IF DOMAIN f.pending = {} /\ f.running \ {n} = {} /\ f.aborted = {} THEN "route" ELSE f.st]
 
 \* a child whose rule state is expect_result completes the parent's graph node with that value
 \* (the child addressed by the current observation is kept: nodes of its last batch may still be reporting)
-ChildDone(F, p, keep) == p # "" /\ p # keep /\ ResultReady(Norm(F[p])) /\ Norm(F[p]).running = {}
+ChildDone(F, p, keep) == p # "" /\ p # keep /\ ResultReady(Norm(F[p])) /\ Norm(F[p]).running = {} /\ Norm(F[p]).postDue = {}
 RECURSIVE Absorb(_, _, _)
 Absorb(gg, F, keep) ==
   IF \E p \in DOMAIN F : ChildDone(F, p, keep)
@@ -199,11 +209,11 @@ CanOpen(gg, V, p) == /\ IsSubPrefix(gg, p) /\ p \notin DOMAIN V
 StartNode(f, n) ==
   IF IsDag(f.g) THEN [f EXCEPT !.status[n] = "run", !.running = f.running \cup {n}, !.cleared = f.cleared \ {n},
                                !.preDone = f.preDone \ {n}, !.redo = f.redo \ {n}, !.pending = Empty,
-                               !.ins = (n :> f.pending[n]) @@ f.ins, !.canceled = f.canceled \/ FailKind(f.g, n) = "cancel"]
+                               !.ins = (n :> PreIn(f.g, f.pending[n])) @@ f.ins, !.canceled = f.canceled \/ FailKind(f.g, n) = "cancel"]
   ELSE [f EXCEPT !.pending = [x \in (DOMAIN f.pending) \ {n} |-> f.pending[x]], !.running = f.running \cup {n},
                  !.cleared = f.cleared \ {n}, !.preDone = f.preDone \ {n}, !.redo = f.redo \ {n}, !.fresh = FALSE,
-                 !.ins = (n :> f.pending[n]) @@ f.ins, !.canceled = f.canceled \/ FailKind(f.g, n) = "cancel"]
-Open(gg, V, p) == LET n == SubNode(gg, p) IN (p :> Norm(NewFrame(SubOf(gg, n), V[""].pending[n]))) @@ ("" :> StartNode(V[""], n)) @@ V
+                 !.ins = (n :> PreIn(f.g, f.pending[n])) @@ f.ins, !.canceled = f.canceled \/ FailKind(f.g, n) = "cancel"]
+Open(gg, V, p) == LET n == SubNode(gg, p) IN (p :> Norm(NewFrame(SubOf(gg, n), PreIn(V[""].g, V[""].pending[n])))) @@ ("" :> StartNode(V[""], n)) @@ V
 \* why a graph node may not start (checked when its frame opens)
 OpenWhy(gg, V, p) == LET f == V[""]  n == SubNode(gg, p) IN
   IF n \in IBefore(f.g) /\ n \notin f.cleared THEN "before-node-ran-without-interrupt"
@@ -218,7 +228,8 @@ ExecWhy(f, e, isAbort) == LET n == e.n IN
   ELSE IF ~CanExec(f) THEN "exec-not-expected-in-state-" \o f.st
   ELSE IF StepLimitHit(f) THEN "exec-beyond-step-limit"
   ELSE IF n \notin DOMAIN f.pending THEN (IF IsDag(f.g) /\ n \in GNodes(f.g) /\ f.status[n] # "unk" THEN "node-executed-twice" ELSE "exec-of-node-not-triggered")
-  ELSE IF f.pending[n] # e.i THEN "wrong-input"
+  ELSE IF PreIn(f.g, f.pending[n]) # e.i THEN "wrong-input"
+  ELSE IF \E d \in (IF IsDag(f.g) THEN f.postDue ELSE f.postBlock) : n \in Succs(f.g, d) THEN "successor-started-before-post-handler"
   ELSE IF n \in IBefore(f.g) /\ n \notin f.cleared THEN "before-node-ran-without-interrupt"
   ELSE IF \E a \in Blockers(f) : n \in Succs(f.g, a) THEN "successor-of-after-node-started"
   ELSE IF f.g.state /\ n \notin f.preDone THEN "body-before-pre-handler"
@@ -228,15 +239,20 @@ ExecWhy(f, e, isAbort) == LET n == e.n IN
 AfterAbort(f, n) == [f EXCEPT !.aborted = f.aborted \cup {n}, !.preDone = f.preDone \ {n}, !.redo = f.redo \ {n}, !.fresh = FALSE,
                               !.pending = IF IsDag(f.g) THEN Empty ELSE f.pending]
 
+\* the frames as the rule sees them when an observation addresses frame p of node n: a finished inner run whose graph node is
+\* executed again (cycle in the parent) is closed, and the frame of a due graph node is opened by its first observation
+Addressed(S, p, n) ==
+  LET Vk == ViewK(S, p)
+      V0 == IF p # "" /\ p \in DOMAIN Vk /\ ResultReady(Vk[p]) /\ Vk[p].running = {} /\ Vk[p].postDue = {} /\ n \notin DOMAIN Vk[p].pending THEN View(S) ELSE Vk
+  IN IF p \in DOMAIN V0 THEN [why |-> "ok", V |-> V0]
+     ELSE IF ~CanOpen(S.g, V0, p) THEN [why |-> "exec-in-graph-node-not-triggered", V |-> V0]
+     ELSE IF OpenWhy(S.g, V0, p) # "ok" THEN [why |-> OpenWhy(S.g, V0, p), V |-> V0]
+     ELSE [why |-> "ok", V |-> Open(S.g, V0, p)]
+
 OnNode(S, e, isAbort) ==
-  LET p == e.p
-      Vk == ViewK(S, p)
-      \* a finished inner run whose graph node is executed again (cycle in the parent): close it, the new execution opens a fresh frame
-      V0 == IF p # "" /\ p \in DOMAIN Vk /\ ResultReady(Vk[p]) /\ Vk[p].running = {} /\ e.n \notin DOMAIN Vk[p].pending THEN View(S) ELSE Vk
-  IN
-  IF p \notin DOMAIN V0 /\ ~CanOpen(S.g, V0, p) THEN BadS(S, "exec-in-graph-node-not-triggered")
-  ELSE IF p \notin DOMAIN V0 /\ OpenWhy(S.g, V0, p) # "ok" THEN BadS(S, OpenWhy(S.g, V0, p))
-  ELSE LET V == IF p \in DOMAIN V0 THEN V0 ELSE Open(S.g, V0, p)
+  LET p == e.p  A == Addressed(S, p, e.n) IN
+  IF A.why # "ok" THEN BadS(S, A.why)
+  ELSE LET V == A.V
            f == Norm(V[p])
            why == ExecWhy(f, e, isAbort)
        IN IF why # "ok" THEN BadS(S, why)
@@ -244,8 +260,8 @@ OnNode(S, e, isAbort) ==
                          !.top.progress = TRUE]
 
 OnPre(S, e) ==
-  LET p == e.p  V == ViewK(S, p) IN
-  IF p \notin DOMAIN V THEN BadS(S, "pre-handler-in-unknown-frame")
+  LET p == e.p  A == Addressed(S, p, e.n)  V == A.V IN
+  IF A.why # "ok" THEN BadS(S, A.why)
   ELSE LET f == V[p]  n == e.n IN
        IF ~f.g.state THEN BadS(S, "pre-handler-without-state")
        ELSE IF ~CanExec(f) \/ n \notin DOMAIN f.pending THEN BadS(S, "pre-handler-of-node-not-triggered")
@@ -253,6 +269,17 @@ OnPre(S, e) ==
        ELSE IF e.rebuilt # (n \in f.redo) THEN BadS(S, "rerun-input-not-rebuilt-from-state")
        ELSE [S EXCEPT !.fr = [V EXCEPT ![p] = [f EXCEPT !.preDone = f.preDone \cup {n},
                                                         !.trail = IF e.rebuilt THEN f.trail ELSE Append(f.trail, n)]]]
+
+\* a critical section on the state of frame p: every one increments the counter it read (no lost update, mutual exclusion, fresh per run)
+OnCs(S, e) ==
+  LET p == e.p  A == IF e.k = "pre" THEN Addressed(S, p, e.n) ELSE [why |-> IF p \in DOMAIN ViewK(S, p) THEN "ok" ELSE "state-access-in-unknown-frame", V |-> ViewK(S, p)]  V == A.V IN
+  IF A.why # "ok" THEN BadS(S, A.why)
+  ELSE LET f == V[p] IN
+       IF ~f.g.state THEN BadS(S, "state-access-without-state")
+       ELSE IF e.seq # f.cs THEN BadS(S, "state-update-lost-or-state-not-fresh")
+       ELSE IF e.k = "post" /\ e.n \notin f.postDue THEN BadS(S, "post-handler-not-after-its-node")
+       ELSE [S EXCEPT !.fr = [V EXCEPT ![p] = [f EXCEPT !.cs = f.cs + 1, !.postDue = IF e.k = "post" THEN f.postDue \ {e.n} ELSE f.postDue,
+                                                        !.postBlock = IF e.k = "post" THEN f.postBlock \ {e.n} ELSE f.postBlock]]]
 
 OnDone(S, e) ==
   LET p == e.p IN
@@ -267,7 +294,7 @@ OnBranch(S, e) ==
       V0 == [q \in DOMAIN F0 |-> Norm(F0[q])]
       \* a graph node whose inner START has a branch reports that branch first: it opens the frame (kept un-normalised: routing)
       F == IF p \notin DOMAIN F0 /\ CanOpen(S.g, V0, p) /\ OpenWhy(S.g, V0, p) = "ok"
-           THEN (p :> NewFrame(SubOf(S.g, SubNode(S.g, p)), V0[""].pending[SubNode(S.g, p)])) @@ ("" :> StartNode(V0[""], SubNode(S.g, p))) @@ F0
+           THEN (p :> NewFrame(SubOf(S.g, SubNode(S.g, p)), PreIn(V0[""].g, V0[""].pending[SubNode(S.g, p)]))) @@ ("" :> StartNode(V0[""], SubNode(S.g, p))) @@ F0
            ELSE F0
   IN
   IF p \notin DOMAIN F THEN BadS(S, "branch-in-unknown-frame")
@@ -297,7 +324,7 @@ InfoWhy(gg, V, p, info) == LET f == V[p]  subs == {SubNode(gg, q) : q \in Active
   ELSE IF Range(info.before) \cup Range(info.after) \cup Range(info.rerun) \cup DOMAIN info.sub = {} THEN "empty-interrupt"
   \* (a nested graph without state of its own reports the state it inherits from its parent: only the top level is judged)
   ELSE IF p = "" /\ info.hasst # f.g.state THEN "interrupt-info-state-presence"
-  ELSE IF p = "" /\ f.g.state /\ info.st # f.trail THEN "interrupt-info-state-mismatch"
+  ELSE IF p = "" /\ f.g.state /\ (info.st # f.trail \/ info.cnt # f.cs) THEN "interrupt-info-state-mismatch"
   ELSE LET badq == {q \in ActiveSubs(V, p) : InfoWhy(gg, V, q, info.sub[SubNode(gg, q)]) # "ok"} IN
        IF badq # {} THEN (LET q == CHOOSE x \in badq : TRUE IN InfoWhy(gg, V, q, info.sub[SubNode(gg, q)]))
        ELSE "ok"
@@ -322,7 +349,8 @@ OnInterrupt(S, e) ==
 
 OnResume(S, e) ==
   IF S.top.st # "interrupted" THEN BadS(S, "resume-without-interrupt")
-  ELSE [S EXCEPT !.fr = [p \in DOMAIN S.fr |-> [S.fr[p] EXCEPT !.step = 1]],      \* the step limit applies per call
+  ELSE [S EXCEPT !.fr = [p \in DOMAIN S.fr |-> [S.fr[p] EXCEPT !.step = 1,       \* the step limit applies per call
+                                                                !.cs = IF p = "" THEN S.fr[p].cs + e.mod ELSE S.fr[p].cs]],  \* caller-supplied state modification
                  !.top.st = "run"]
 
 EndS(S) == [S EXCEPT !.top.st = "ended"]
@@ -372,6 +400,7 @@ Apply(S, e) ==
   ELSE IF e.ev = "abort" THEN OnNode(S, e, TRUE)
   ELSE IF e.ev = "pre" THEN OnPre(S, e)
   ELSE IF e.ev = "done" THEN OnDone(S, e)
+  ELSE IF e.ev = "cs" THEN OnCs(S, e)
   ELSE IF e.ev = "branch" THEN OnBranch(S, e)
   ELSE IF e.ev = "interrupt" THEN OnInterrupt(S, e)
   ELSE BadS(S, "unknown-observation-" \o e.ev)
